@@ -336,6 +336,10 @@ def shard(ctx, k, payload):
             for key in str_keys:
                 if data.draw(st.integers(0, 2)) == 0:
                     t = adversarial_text(data.draw)
+                    if mode == 'adversarial' and data.draw(st.integers(0, 7)) == 0:
+                        # several hundred characters dense with PDF string syntax (a box without a length limit takes them)
+                        n_ = data.draw(st.sampled_from([150, 199, 200, 201, 260, 399, 400, 401, 450]))
+                        t = ''.join(data.draw(st.sampled_from(['(', ')', '\\', 'a', 'b ', '((', '))', '\\(', 'x' * 7])) for _ in range(n_))[:n_]
                     if mode == 'overlong' and data.draw(st.integers(0, 3)) == 0:
                         t = t + data.draw(st.sampled_from(['X' * 10, 'X' * 30, 'X' * 60, '-Xy' * 4, 'Smith-Jones-Featherstonehaugh', '-' * 15, '27511-12345']))
                     inputs[key] = t.replace('%', '%%')
@@ -385,14 +389,34 @@ def shard(ctx, k, payload):
     hyp.run_data(body, n, seed)
 
 
+def check_sequence_numbers(ctx):
+    """every form class with a template: its attachment sequence number and jurisdiction agree with the independent
+    filing rule table (exhaustive over years x forms)"""
+    for year in (2021, 2022, 2023):
+        for cl in hforms.available_forms[year]:
+            base = cl.form_name
+            for j in ('US', 'NC'):
+                if base in RULES['order'][j]:
+                    ctx.case()
+                    got = getattr(cl, 'sequence_no', None)
+                    ctx.nt(f'seq|{year}|{base}')
+                    if got != RULES['order'][j][base]:
+                        ctx.violation(f'forms:sequence-number:{year}:{base}', f'{year} {base}: class declares attachment sequence number {got!r}, the filing rule table says {RULES["order"][j][base]}',
+                                      {'static': 'sequence', 'year': year, 'form': base})
+
+
 def run(ctx):
     quick = ctx.tier == 'quick'
+    check_sequence_numbers(ctx)
     n = 240 if quick else 5000
     shards = 8 if quick else 16
     hyp.pmap(ctx, shard, [(max(1, n // shards), ctx.seed * 1000 + k) for k in range(shards)])
 
 
 def replay(ctx, case):
+    if case.get('static') == 'sequence':
+        check_sequence_numbers(ctx)
+        return
     if 'injected' in case:
         base = {k_: v_ for k_, v_ in case.items() if k_ != 'injected'}
         check_injection(ctx, case['scenario'], None, base, forced=case['injected']['line'], forced_value=case['injected'].get('value'))
